@@ -55,6 +55,9 @@ pub fn install_panic_recorder() {
         };
         let mut short: String = msg.chars().take(120).collect();
         short = short.replace('\n', " ");
+        if std::env::var("VERIF_DEBUG_PANIC").is_ok() {
+            eprintln!("panic at {} | {}", loc, short);
+        }
         *LAST_PANIC.lock().unwrap() = Some(format!("{} | {}", loc, short));
     }));
 }
